@@ -18,10 +18,15 @@ where
 {
     #[inline(always)]
     fn drop(&mut self) {
-        if let Some(chunk) = self.scope.raw.chunk.get().as_non_dummy() {
-            let pos = chunk.pos().addr().get();
+        // Chunks that were left while the alignment was lowered keep their (possibly unaligned) position.
+        // A scope created with `by_value` before may still point at one of them, so we align those too.
+        let mut chunk = self.scope.raw.chunk.get().as_non_dummy();
+
+        while let Some(some) = chunk {
+            let pos = some.pos().addr().get();
             let addr = align_pos(S::UP, S::MIN_ALIGN, pos);
-            unsafe { chunk.set_pos_addr(addr) };
+            unsafe { some.set_pos_addr(addr) };
+            chunk = some.prev();
         }
     }
 }
